@@ -99,7 +99,8 @@ def make_scheduler(name, mode, seed, cs_kind="mixed", max_t=27, extra=None):
                   brackets=extra.get("brackets", 1), random_seed=seed, search_options={"debug_log": False})
         if typ == "cost_promotion":
             kw["cost_attr"] = "cost"
-        if typ.startswith("rush"):
+        if typ.startswith("rush") and not extra.get("default_rung_system_kwargs"):
+            # (`default_rung_system_kwargs`: the argument is left to its default, a module-level dict of the library)
             kw["rung_system_kwargs"] = {"num_threshold_candidates": extra.get("num_threshold_candidates", 2)}
         return HyperbandScheduler(cs, **kw)
     if name == "sync-hb":
@@ -147,8 +148,10 @@ def base_metric(seed, tid, r, style="general", which=0):
     if style == "ties":
         return rr.randrange(0, 4) / 4.0
     lat = random.Random(seed * 31 + tid * 7 + which).randrange(0, 64)
+    if style == "hurdle" and tid < 3:
+        lat //= 8   # the first trials are good ones: hurdles set by them (RUSH) are hard to take
     v = (lat * 16 + rr.randrange(0, 256)) / 1024.0
-    if style == "distinct":
+    if style in ("distinct", "hurdle"):
         # general position: all values of a run pairwise distinct (unique low-order bits), negation exact
         v += ((tid * 128 + r) * 2 + which + 1) * 2.0 ** -36
     return v
